@@ -39,7 +39,7 @@ func (c03) Gen(seed uint64, run int, tier string) *Plan {
 		switch x := r.Intn(100); {
 		case x < 50:
 			// A: variant 0 exact, 1 trailing bytes, 2 truncated; B agent; C callback; D seed; L[0] = amount
-			v := []int{0, 0, 1, 1, 1, 2, 3}[r.Intn(7)]
+			v := []int{0, 0, 1, 1, 1, 2, 3, 4}[r.Intn(8)]
 			p.Actions = append(p.Actions, Action{Kind: "callback", A: v, B: d, C: r.Intn(len(world.Callbacks)), D: r.Intn(1 << 30), L: []int{1 + r.Intn(7)}})
 			if r.Intn(12) == 0 {
 				// a process that reports its output in several packages under the one request id
@@ -88,7 +88,7 @@ func sentMeta(r *simrt.Rand) world.Meta {
 		Domain:      fmt.Sprintf("DOM%x", r.Uint64()&0xffff),
 		InternalIP:  fmt.Sprintf("10.%d.%d.%d", r.Intn(250), r.Intn(250), 1+r.Intn(250)),
 		ProcessPath: fmt.Sprintf("C:\\Dir %x\\proc_%x.exe", r.Uint64()&0xfff, r.Uint64()&0xffffff),
-		PID:         uint32(100 + r.Intn(60000)), TID: uint32(100 + r.Intn(60000)), PPID: uint32(100 + r.Intn(60000)),
+		PID:         []uint32{uint32(100 + r.Intn(60000)), uint32(100 + r.Intn(60000)), 0x01000000 + uint32(r.Intn(1<<24)), 0xfffffffc}[r.Intn(4)], TID: uint32(100 + r.Intn(60000)), PPID: uint32(100 + r.Intn(60000)),
 		Arch: uint32(1 + r.Intn(2)), Elevated: uint32(r.Intn(2)), Base: 0x7ff600000000 + uint64(r.Intn(1<<28))<<4,
 		OS: [5]uint32{10, 0, uint32(1 + r.Intn(2)), 0, 19045}, OSArch: 9,
 		Sleep: uint32(r.Intn(3000)), Jitter: uint32(r.Intn(100)), KillDate: uint64(r.Intn(2)) * (0x01DA000000000000 + uint64(r.Intn(1<<30))),
@@ -153,6 +153,12 @@ func (c03) Exec(p *Plan, dir string) *Result {
 			d.Key = randBytes(cr, 32)
 			d.IV = randBytes(cr, 16)
 			d.Meta = sentMeta(cr)
+			if a.A == 2 {
+				// the process path arrives one byte short: whatever becomes of it, the fields behind it
+				// (the process id first) are what was sent
+				d.Meta.OddPath = true
+				res.Probe("registrations-with-odd-length-utf16")
+			}
 			before := len(w.TS.Agents.Agents)
 			_, ok := w.Register(d)
 			if !ok {
@@ -403,9 +409,9 @@ func (st *c03State) checkSession(d *world.Demon, fresh bool) {
 		bad("domain", i.DomainName, m.Domain)
 	case i.InternalIP != m.InternalIP:
 		bad("internal-ip", i.InternalIP, m.InternalIP)
-	case i.ProcessPath != m.ProcessPath:
+	case !m.OddPath && i.ProcessPath != m.ProcessPath:
 		bad("process-path", i.ProcessPath, m.ProcessPath)
-	case !strings.HasSuffix(m.ProcessPath, "\\"+i.ProcessName):
+	case !m.OddPath && !strings.HasSuffix(m.ProcessPath, "\\"+i.ProcessName):
 		bad("process-name", i.ProcessName, m.ProcessPath)
 	case uint32(i.ProcessPID) != m.PID:
 		bad("pid", i.ProcessPID, m.PID)
@@ -485,6 +491,29 @@ func (st *c03State) callback(a Action) {
 		} else {
 			body = body[:len(body)-extra]
 		}
+	case 4:
+		// a UTF-16 string that is one byte short (its last code unit is incomplete): whatever becomes
+		// of that string, the fields behind it are what the agent sent
+		pre := world.TopLevelPrefixes(marks, body)
+		at := -1
+		for k := 0; k+1 < len(pre); k++ { // not the last field
+			o := pre[(k+extra)%(len(pre)-1)]
+			n := int(binary.BigEndian.Uint32(body[o:]))
+			if n >= 4 && n%2 == 0 && o+4+n <= len(body) && body[o+4+1] == 0 && body[o+4+3] == 0 {
+				at = o
+				break
+			}
+		}
+		if cb.Repeats || at < 0 {
+			variant = 0
+		} else {
+			n := int(binary.BigEndian.Uint32(body[at:]))
+			nb := append([]byte(nil), body[:at+4+n-1]...)
+			nb = append(nb, body[at+4+n:]...)
+			binary.BigEndian.PutUint32(nb[at:], uint32(n-1))
+			body = nb
+			res.Probe("utf16-strings-of-odd-length")
+		}
 	case 3:
 		// one of the byte strings announces one of the four largest 32-bit lengths (the packet
 		// cannot hold it, whatever follows): the packet is incomplete
@@ -560,6 +589,17 @@ func (st *c03State) callback(a Action) {
 	}
 	res.Probe("callbacks-checked")
 	t := text.String()
+	if variant == 4 {
+		if events > 0 {
+			for _, n := range sent.Ints {
+				if !strings.Contains(t, fmt.Sprint(n)) && !strings.Contains(strings.ToLower(t), fmt.Sprintf("%x", n)) {
+					res.Violate("C03", "field-fidelity-behind-odd-utf16", cb.Name+":integer", fmt.Sprintf("agent %s: %s callback with a UTF-16 string one byte short sent %d (0x%x) in another field, console shows: %s", d.NameID(), cb.Name, n, n, short(t, 300)), w.Sim)
+					return
+				}
+			}
+		}
+		return
+	}
 	switch variant {
 	case 0, 1:
 		rule := "field-fidelity"
